@@ -307,9 +307,9 @@ impl World for Chance {
 
 pub fn run(tier: Tier, seed: u64, known: &KnownFindings) -> CheckReport {
     let mk = |batch: &'static str, runs: u64| BatchConfig { check_id: "C10", batch, base_seed: seed, tier, runs, threads: threads(), known, samples: 1 };
-    let b1 = run_batch(&CondPrograms, &mk("condition-programs", tier.pick(40_000, 2_000_000)));
-    let b2 = run_batch(&BoundedLoops, &mk("bounded-loops", tier.pick(3_000, 60_000)));
-    let b3 = run_batch(&Chance, &mk("random-chance", tier.pick(200, 2_000)));
+    let b1 = run_batch(&CondPrograms, &mk("condition-programs", tier.pick(800_000, 12_000_000)));
+    let b2 = run_batch(&BoundedLoops, &mk("bounded-loops", tier.pick(20_000, 200_000)));
+    let b3 = run_batch(&Chance, &mk("random-chance", tier.pick(1_500, 10_000)));
     CheckReport {
         property_id: "C10".into(),
         tier,
